@@ -306,7 +306,12 @@ func (r *refRun) occurrence(o *OptInfo, inline *string, canNext bool) *RefErr {
 		text = *inline
 	case canNext && !o.IsOptional() && len(r.args) > 0:
 		t := r.pop()
-		if isOptSyntax(t.s) {
+		if o.Kind.Elem() == KValid {
+			// the type decides itself which separate tokens are arguments
+			if !ValidAccepts(t.s) {
+				return &RefErr{Types: []flags.ErrorType{flags.ErrExpectedArgument}, Name: o.Display(), Why: "token refused by the option type's own validator"}
+			}
+		} else if isOptSyntax(t.s) {
 			// documented exception: a negative number given to a signed numeric option
 			negNum := false
 			if o.Kind.IsSignedNum() && t.s[0] == '-' {
